@@ -30,7 +30,7 @@ RejectedOk(r) ==
   /\ ~(pk.ok /\ Supported(pk.k))           \* a supported key is never refused (how a refusal looks is C09's business)
 
 ListingOk(r) ==
-  /\ r.ok /\ NoDup(r.keys)
+  /\ r.ok
   /\ \A k \in SupportedKeys : PrintKey(k) \in Range(r.keys)
 
 RecOk(r) == CASE r.kind = "skipped" -> TRUE
